@@ -776,6 +776,7 @@ func checkC11(P *Prog, r *Result) {
 	// (d) precedence
 	P.checkPrecedence(r)
 	P.checkParamPresence(r)
+	P.checkIssuesBuiltByContext(r)
 	_ = R
 }
 
@@ -1419,4 +1420,126 @@ func (P *Prog) checkParamPresence(r *Result) {
 		}
 	}
 	r.floor("C11/param-presence", 1)
+}
+
+// checkIssuesBuiltByContext: every issue the module hands to AddIssue was built by one of the node context's issue
+// constructors (Issue, IssueFromTest, IssueFromCoerce, IssueFromUnknownError - the last is what gives an issue that
+// comes from outside, a request factory's *ZogIssue, the type of the node it is reported at). A foreign issue passed
+// on directly ("it is already a *ZogIssue, the conversion cannot fail") reaches the user without a type, and with
+// it without a message under every language-map formatter.
+func (P *Prog) checkIssuesBuiltByContext(r *Result) {
+	R := P.roles
+	isIssuePtr := func(t types.Type) bool { return P.isPtrTo(t, R.ZogIssue) }
+	isCtor := func(f *ssa.Function) bool {
+		if f == nil || f.Signature.Results().Len() != 1 || !isIssuePtr(f.Signature.Results().At(0).Type()) {
+			return false
+		}
+		if recv := f.Signature.Recv(); recv != nil {
+			return P.isPtrTo(recv.Type(), R.SchemaCtx) || P.isPtrTo(recv.Type(), R.ExecCtx)
+		}
+		return false
+	}
+	var origin func(v ssa.Value, d int) string
+	origin = func(v ssa.Value, d int) string {
+		if d > 10 || v == nil {
+			return "unknown"
+		}
+		switch x := cv(v).(type) {
+		case *ssa.Phi:
+			res := ""
+			for _, e := range x.Edges {
+				o := origin(e, d+1)
+				if o != "ctor" {
+					return o
+				}
+				res = o
+			}
+			return res
+		case *ssa.Call:
+			ci := callOf(x)
+			if ci.invoke != nil && isIssuePtr(x.Type()) {
+				// ctx.Issue() / ctx.IssueFromTest(...) through the Ctx interface
+				if it, ok := x.Call.Value.Type().Underlying().(*types.Interface); ok && R.Ctx != nil && types.Identical(it, R.Ctx) {
+					return "ctor"
+				}
+				return "an interface call of " + ci.invoke.Name()
+			}
+			g := ci.static
+			if g == nil {
+				return "the result of a call through a func value (a request factory's own issue)"
+			}
+			if isCtor(g) {
+				return "ctor"
+			}
+			// a setter of the issue that returns its receiver, or a module helper returning an issue
+			if g.Blocks != nil && inModule(funcPkgPath(g)) && g.Signature.Results().Len() == 1 && isIssuePtr(g.Signature.Results().At(0).Type()) {
+				res := ""
+				eachInstr(g, func(_ *ssa.BasicBlock, _ int, in ssa.Instruction) {
+					rt, ok := in.(*ssa.Return)
+					if !ok || len(rt.Results) != 1 || (res != "" && res != "ctor") {
+						return
+					}
+					rv := cv(rt.Results[0])
+					if prm, isP := rv.(*ssa.Parameter); isP && prm.Parent() == g {
+						for i, q := range g.Params {
+							if q == prm && i < len(x.Call.Args) {
+								res = origin(x.Call.Args[i], d+1)
+							}
+						}
+						return
+					}
+					res = origin(rv, d+1)
+				})
+				if res != "" {
+					return res
+				}
+			}
+			return "the result of " + fname(g)
+		case *ssa.Extract:
+			return "a result of " + origin(x.Tuple, d+1)
+		case *ssa.Parameter:
+			return "a parameter (" + x.Name() + ")"
+		case *ssa.TypeAssert:
+			return "a value asserted to *ZogIssue"
+		}
+		return fmt.Sprintf("a %T", cv(v))
+	}
+	n := 0
+	for _, fn := range P.Funcs {
+		if !inModule(funcPkgPath(fn)) || fn.Name() == "AddIssue" || fn.Name() == "NewError" {
+			continue
+		}
+		eachInstr(fn, func(_ *ssa.BasicBlock, _ int, in ssa.Instruction) {
+			ci := callOf(in)
+			if ci == nil {
+				return
+			}
+			name := ""
+			switch {
+			case ci.invoke != nil:
+				name = ci.invoke.Name()
+			case ci.static != nil:
+				name = ci.static.Name()
+			}
+			if name != "AddIssue" {
+				return
+			}
+			args := ci.args()
+			if len(args) == 0 {
+				return
+			}
+			arg := args[len(args)-1]
+			if !isIssuePtr(arg.Type()) {
+				return
+			}
+			n++
+			c := fmt.Sprintf("%s#AddIssue@%d", fname(fn), n)
+			if o := origin(arg, 0); o == "ctor" {
+				r.ok("C11/issues-built-by-context", c, P.ipos(in), "the issue comes from an issue constructor of the node context")
+			} else {
+				r.bad("C11/issues-built-by-context", c, P.ipos(in), "the issue handed to AddIssue is "+o+", not the product of one of the context's issue constructors: it is reported without the node's type (and without a message under a language-map formatter)")
+			}
+		})
+	}
+	r.floor("C11/issues-built-by-context", 10)
 }
